@@ -31,10 +31,15 @@ class Gamma:
         return [int(v) for v in r]
 
     def mat(self, g, s=1):
-        m = np.eye(4)
-        m[:3, :3] = s * geom.o24_matrix(geom.rot(g["r"]))
-        m[:3, 3] = self.pos(g["p"])
-        return m
+        # the SAME array object is handed out for the same transformation within one history: a caller may reuse its matrix
+        key = (g["r"], tuple(g["p"]), s)
+        cache = self.__dict__.setdefault("_mats", {})
+        if key not in cache:
+            m = np.eye(4)
+            m[:3, :3] = s * geom.o24_matrix(geom.rot(g["r"]))
+            m[:3, 3] = self.pos(g["p"])
+            cache[key] = m
+        return cache[key]
 
 
 def pmul(a, b):
